@@ -229,6 +229,41 @@ h("ki5d_match_guard_friends", SYM, SP, ["C02", "C03", "C04"], kernel="KI5d", exp
 h("ki5d_fixed_tables_are_rfc", SYM, SP, ["C03", "C01", "C05"], kernel="KD2/KI5d", expect_s=5, timeout=300,
   functions=["inffixed_tbl::LENFIX", "inffixed_tbl::DISTFIX"], bounds="all 512 + 32 table indices (exhaustive, decided symbolically)")
 
+# ---------------------------------------------------------------- deflate: KD4/KD5 dynamic trees at reduced alphabets
+TR = D + "/kd4_trees.rs"
+TRP = "deflate::verif_kani::kd4_trees"
+h("kd4_gen_codes_n5", TR, TRP, ["C05", "C01"], kernel="KD4", expect_s=60, timeout=900,
+  functions=["deflate::gen_codes"], bounds="every complete set of code lengths <= 4 over 5 symbols", assumptions=["precondition: Kraft sum == 1 (established by gen_bitlen: kd4_build_tree_*)"])
+h("kd4_gen_codes_n8", TR, TRP, ["C05", "C01"], kernel="KD4", expect_s=300, timeout=1800, weight=2,
+  functions=["deflate::gen_codes"], bounds="every complete set of code lengths <= 7 over 8 symbols", assumptions=["precondition: Kraft sum == 1"])
+def BT_US(k, body="build_tree_bl_instance"):
+    return [("Heap::pqdownheap", None, 4), ("Heap::construct_huffman_tree", None, k + 1), ("deflate::build_tree", None, k + 1),
+            ("deflate::gen_bitlen", None, 2), ("deflate::gen_bitlen", ("zlib-rs/src/deflate.rs", "for h in heap.heap_max + 1..HEAP_SIZE {"), 2 * k + 1), ("deflate::gen_codes", None, 20), ("Heap::initialize", None, 21),
+            ("kd4_trees::" + body, None, 40)]
+# k = 5 did not finish in 2400 s (k = 4: 714 s, k = 3: 50 s): not registered
+for _k in (2, 3, 4):
+    h("kd4_build_tree_bl_k%d" % _k, TR, TRP, ["C05", "C01"], kernel="KD4", expect_s=300, timeout=2400, weight=2, mem_gb=16, unwindset=BT_US(_k),
+      functions=["deflate::build_tree::<39>", "Heap::{initialize,pqdownheap,pqremove,construct_huffman_tree}", "gen_bitlen", "gen_codes"],
+      bounds="bit-length alphabet (19 symbols, limit 7 bits), %d used symbols at concrete positions with symbolic non-zero frequencies" % _k)
+h("kd4_build_tree_bl_single", TR, TRP, ["C05", "C01"], kernel="KD4", expect_s=100, timeout=1200, weight=2, unwindset=BT_US(2, "kd4_build_tree_bl_single"),
+  functions=["deflate::build_tree::<39> (forced second code)"], bounds="one used symbol (0, 1 or 7) with any non-zero frequency")
+def ST_US(n):
+    return [("BitWriter::<'_>::send_tree", None, n + 2), ("BitWriter::<'_>::send_tree", ("zlib-rs/src/deflate.rs", "self.send_code(curlen as usize, bl_tree);", -1), 4),
+            ("deflate::scan_tree", None, n + 2), ("kd4_trees::send_tree_instance", None, 20)]
+for _n, _nz, _name in ((4, 0, "n4"), (5, 0, "n5"), (7, 0, "n7"), (13, 11, "z11_n13")):
+    h("kd5_send_tree_" + _name, TR, TRP, ["C05", "C01"], kernel="KD5", expect_s=300, timeout=2400, weight=2, mem_gb=16, unwindset=ST_US(_n),
+      functions=["BitWriter::send_tree", "deflate::scan_tree", "BitWriter::send_code", "BitWriter::send_bits"],
+      bounds="%d code lengths: %d concrete zeros followed by %d symbolic lengths 0..=15; fixed 5-bit code for the bit-length alphabet; reference RLE decoder (RFC 1951 3.2.7)" % (_n, _nz, _n - _nz))
+
+# ---------------------------------------------------------------- deflate: KD9 window slide
+h("kd9_fill_window_slide_keeps_deferred_match", D + "/kd9_window.rs", "deflate::verif_kani::kd9_window", ["C01", "C06"], kernel="KD9", expect_s=120, timeout=1800, weight=2, mem_gb=16,
+  functions=["deflate::fill_window (slide branch, no input)"],
+  bounds="w_size 512 (window 1024 symbolic bytes), any strstart >= w_size + max_dist, any lookahead < MIN_LOOKAHEAD, any block_start/insert, any deferred match "
+         "(match_start, prev_length <= 258) satisfying the loop-head invariant of deflate_slow at one symbolic offset (the invariant is pointwise)",
+  assumptions=["slide_hash -> no-op (decided by kd9_slide_hash_chain)", "avail_in == 0: fill_window returns after the slide"])
+h("kd9_slide_hash_chain", "zlib-rs/src/deflate/slide_hash/verif_kani.rs", "deflate::slide_hash::verif_kani", ["C01"], kernel="KD9", expect_s=60, timeout=900,
+  functions=["slide_hash::slide_hash_chain", "generic_slide_hash_chain::<32>"], bounds="64 symbolic entries, any wsize")
+
 # ---------------------------------------------------------------- deflate: KD6 stored path
 h("kd6_stored_one_call", D + "/kd6_stored.rs", "deflate::verif_kani::kd6_stored", ["C01", "C05", "C06", "C07", "C11", "C15"],
   kernel="KD6", expect_s=400, timeout=2400, weight=3, mem_gb=20,
@@ -478,6 +513,17 @@ h("kd7_gzip_start_stale_gzindex", D + "/kd7_machine.rs", "deflate::verif_kani::k
   functions=["deflate::deflate (gzip header from Status::GZip: fixed part, Name/Comment, trailer)", "flush_bytes"],
   bounds="new gzip member (status GZip) with a stale gzindex 0..=3 left by an abandoned member, name or comment of 3 symbolic chars, no extra field, ample output",
   assumptions=RUNSTUB + ["crc32 -> nondeterministic", "CStr::from_ptr -> explicit-loop model"])
+h("kd7_starved_flush_is_completed_by_the_next_call", D + "/kd7_machine.rs", "deflate::verif_kani::kd7_machine", ["C11", "C06"], kernel="KD7", expect_s=120, timeout=1200, weight=2, mem_gb=16,
+  functions=["deflate::deflate (last_flush / duplicate-flush logic, NeedMore with avail_out == 0, marker emission)"],
+  bounds="raw stream in status Busy, any previous flush value incl. -1/-2, any flush but NoFlush, 3 input bytes; call 1 with one byte of space (the compress function runs out of space), call 2 with 15 bytes and no input",
+  assumptions=["algorithm::run -> contract stub: takes all input; with one byte of space fills it, leaves data buffered, NeedMore; otherwise completes per flush"])
+h("kd7_refused_call_without_space_is_harmless", D + "/kd7_machine.rs", "deflate::verif_kani::kd7_machine", ["C06"], kernel="KD7", expect_s=120, timeout=1200, weight=2, mem_gb=16,
+  functions=["deflate::deflate (avail_out == 0 rejection, last_flush bookkeeping)"],
+  bounds="raw stream in status Busy with buffered input, any previous flush value of lower rank, any flush but NoFlush; call 1 with avail_out == 0, call 2 with 16 bytes",
+  assumptions=["algorithm::run -> contract stub (as above)"])
+h("ka3_default_allocator_fallback_is_a_matched_pair", "zlib-rs/src/allocate/verif_kani.rs", "allocate::verif_kani", ["C18"], kernel="KA1", expect_s=10, timeout=300,
+  functions=["z_stream::configure_default_rust_allocator", "z_stream::configure_allocator"], bounds="every subset of {zalloc, zfree} supplied by the caller",
+  assumptions=["the harness repeats the 3-line prologue shared by deflate::init / inflate::init / inflateBackInit (init itself is not encodable)"])
 h("ki8_sync_then_inflate", I + "/ki8_entry.rs", "inflate::verif_kani::ki8_entry", ["C15", "C16"], kernel="KI8", expect_s=60, timeout=900,
   functions=["inflate::sync", "inflate::inflate", "inflate::reset", "State::dispatch (TypeDo, Stored, CopyBlock, Check, Length, Done)"],
   bounds="any running totals < 2^40, concrete marker + final stored block with 2 symbolic data bytes", assumptions=STEP_ASSUME)
@@ -507,7 +553,7 @@ h("ka2_inflate_end_releases_once", I + "/ki8_entry.rs", "inflate::verif_kani::ki
 # unique to the property.
 # =================================================================================================================
 QUICK = {
-    "C01": ["kd8_quick_finish_n1", "kd8_quick_finish_n3", "kd2_static_encode_matches_rfc", "ki5d_fixed_tables_are_rfc",
+    "C01": ["kd9_fill_window_slide_keeps_deferred_match", "kd9_slide_hash_chain", "kd4_gen_codes_n5", "kd4_build_tree_bl_k3", "kd5_send_tree_n4", "kd8_quick_finish_n1", "kd8_quick_finish_n3", "kd2_static_encode_matches_rfc", "ki5d_fixed_tables_are_rfc",
             "kd1_emitters_one_step", "ki5c_stored", "kd10_reset_equals_fresh"],
     "C02": ["ki1_bitreader_refill_model", "ki2_copy_match_twin_small", "ki2_extend_from_window_twin", "ki3_window_extend_ring",
             "ki5b_extra", "ki5b_name_entry_length", "ki5b_comment_entry_length", "ki5b_name", "ki5c_stored", "ki5d_len_step", "ki6_fast_loop_room", "ki7_inflate_copyblock",
@@ -517,10 +563,10 @@ QUICK = {
             "ki5e_length_gzip", "ki5b_hcrc"],
     "C04": ["ki1_bitreader_split", "ki5c_copyblock_resume", "ki5c_stored_trees", "ki5d_match_guard_dispatch", "ki5c_codelens_17_suspend", "ki5c_lenlens_order", "ki5b_extra", "ki5d_dist_step_friends",
             "ki7_inflate_copyblock", "ki3_window_extend_ring", "ki5c_typedo_b2_i0"],
-    "C05": ["kd1_bitwriter_pack", "kd1_emitters_one_step", "kd1_bitwriter_full_register", "kd10_prime",
+    "C05": ["kd4_gen_codes_n5", "kd4_build_tree_bl_k2", "kd4_build_tree_bl_k3", "kd4_build_tree_bl_single", "kd5_send_tree_n4", "kd5_send_tree_z11_n13", "kd1_bitwriter_pack", "kd1_emitters_one_step", "kd1_bitwriter_full_register", "kd10_prime",
             "kd2_static_encode_matches_rfc", "kd2_static_ltree_is_rfc_fixed_code", "kd7_zlib_wrapper", "kd8_quick_finish_n1",
             "kd10_set_dictionary_protocol"],
-    "C06": ["kd7_zlib_wrapper", "kd7_zlib_starved_finish", "kd10_prime", "kd10_params_tune", "kd10_set_header",
+    "C06": ["kd7_refused_call_without_space_is_harmless", "kd7_starved_flush_is_completed_by_the_next_call", "kd7_zlib_wrapper", "kd7_zlib_starved_finish", "kd10_prime", "kd10_params_tune", "kd10_set_header",
             "kd8_quick_finish_n1", "ka1_alloc_overflow_and_null"],
     "C07": ["kd8_quick_finish_n1", "kd8_quick_finish_n3", "kd6_stored_one_call", "kd7_gzip_header_none_s1"],
     "C08": ["ki3_window_extend_checksum_order", "ki5e_check_zlib", "ki5e_check_gzip", "ki5e_length_gzip", "ki5b_hcrc", "ki5b_fixed_part", "ki5b_name",
@@ -529,7 +575,7 @@ QUICK = {
             "kc9_crc_combine_len0_1_2", "kc9_multmodp_identity", "kc9_adler_len_0_1_2_3"],
     "C10": ["ki2_copy_match_twin_small", "ki2_extend_from_window_twin", "ki3_window_extend_ring", "kd10_reset_equals_fresh",
             "ki8_reset_equals_fresh"],
-    "C11": ["kd7_zlib_wrapper", "kd8_quick_sync_n3", "kd1_emitters_one_step"],
+    "C11": ["kd7_starved_flush_is_completed_by_the_next_call", "kd7_zlib_wrapper", "kd8_quick_sync_n3", "kd1_emitters_one_step"],
     "C13": ["ki5a_head_n6", "ki5a_set_dictionary", "ki3_get_dictionary_order", "kd7_zlib_wrapper", "kd10_set_dictionary_protocol"],
     "C14": ["kd10_reset_equals_fresh", "ki8_reset_equals_fresh", "ka2_deflate_copy_alloc_failure", "kd10c_pending_clone_to",
             "kd10c_symbuf_clone_to", "ki8c_window_clone_to", "kd7_gzip_start_stale_gzindex"],
@@ -537,7 +583,7 @@ QUICK = {
             "ki8_sync_then_inflate", "kd7_zlib_wrapper"],
     "C16": ["ki8_small_entry_points", "ki8_sync", "ki8_reset_equals_fresh", "ki5a_set_dictionary", "kd10_prime", "kd10_params_tune",
             "kd10_set_header", "kd10_set_dictionary_protocol", "ki7_inflate_terminal", "ki5e_terminal_modes"],
-    "C18": ["ka1_alloc_shim", "ka1_alloc_overflow_and_null", "ka2_deflate_copy_alloc_failure", "ka2_deflate_end_releases_once",
+    "C18": ["ka3_default_allocator_fallback_is_a_matched_pair", "ka1_alloc_shim", "ka1_alloc_overflow_and_null", "ka2_deflate_copy_alloc_failure", "ka2_deflate_end_releases_once",
             "ka2_inflate_end_releases_once"],
     "C19": ["kb1_back_lit1_d0", "kb1_back_lit1_d4", "kb1_back_lit1_d16", "kb1_back_lit1_d29", "kb1_back_lit1_d30",
             "kb1_back_lit9_d5", "ki2_copy_match_back"],
